@@ -5,6 +5,7 @@
 
 mod chunkcheck;
 mod exec;
+mod inst;
 mod lexcheck;
 mod monitor;
 mod ops;
@@ -63,6 +64,7 @@ fn serve() {
                 let counts = monitor::opcode_counts();
                 json!({"opcodes": counts.iter().map(|(n, c)| json!([n, c])).collect::<Vec<_>>()})
             }
+            op if op.starts_with("inst_") => inst::op(&req),
             "quit" => break,
             other => json!({"harness_error": format!("unknown op {other}")}),
         };
